@@ -134,18 +134,28 @@ def run_scenarios(scs):
 
 def judge(v, traces, scs, labels, terminal_labels, tag='seq'):
     sc = vlib.scratch()
-    path = os.path.join(sc, f'{tag}_traces.json')
-    with open(path, 'w') as f:
-        json.dump(traces, f)
     cfg = os.path.join(sc, f'{tag}.cfg')
     with open(cfg, 'w') as f:
         f.write('SPECIFICATION Spec\n')
-    r = vlib.run_tlc('SequencerMon', cfg, workers=8, env={'TRACE_FILE': path}, timeout=2400, heap='8g')
-    if not r.ok:
-        raise MachineryFailure(f'SequencerMon: {r.error_text[:3000]}')
-    done = {int(json.loads(l)[2:]) for l in r.stdout.splitlines() if l.startswith('"D ')}
-    if done != {t['id'] for t in traces}:
-        raise MachineryFailure(f'SequencerMon: {len(done)} traces completed out of {len(traces)}')
+    out = ''
+    # (TLC reads the traces of one chunk at a time: memory stays bounded in thorough runs)
+    for lo in range(0, len(traces), 500):
+        chunk = traces[lo:lo + 500]
+        path = os.path.join(sc, f'{tag}_traces_{lo}.json')
+        with open(path, 'w') as f:
+            json.dump(chunk, f)
+        r = vlib.run_tlc('SequencerMon', cfg, workers=8, env={'TRACE_FILE': path}, timeout=2400, heap='8g')
+        os.remove(path)
+        if not r.ok:
+            raise MachineryFailure(f'SequencerMon: {r.error_text[:3000]}')
+        done = {int(json.loads(l)[2:]) for l in r.stdout.splitlines() if l.startswith('"D ')}
+        if done != {t['id'] for t in chunk}:
+            raise MachineryFailure(f'SequencerMon: {len(done)} traces completed out of {len(chunk)}')
+        out += r.stdout + '\n'
+
+    class _R:
+        stdout = out
+    r = _R()
     allv = vlib.tlc_prints(r.stdout, 'V ') + vlib.tlc_prints(r.stdout, 'E ')
     want = set(labels) | set(terminal_labels)
     listed = {x['id']: x for x in vlib.known_for(v.pid)}
@@ -169,6 +179,21 @@ def judge(v, traces, scs, labels, terminal_labels, tag='seq'):
     v.cov['traces_validated_against_impl'] += len(traces)
     v.cov['evaluations'] += sum(len(t['steps']) for t in traces)
     return allv
+
+
+def run_and_judge(v, scs, labels, terminal_labels, tag='seq', chunk=400):
+    """Scenarios are run and judged chunk by chunk (bounded memory in thorough runs).
+    Returns (verdict lines, number of traces, number of steps)."""
+    allv, n_tr, n_st = [], 0, 0
+    for lo in range(0, len(scs), chunk):
+        part = scs[lo:lo + chunk]
+        traces = run_scenarios(part)
+        got = judge(v, traces, part, labels, terminal_labels, tag=tag)
+        for f in got:
+            allv.append(dict(f, t=f['t'] + lo))
+        n_tr += len(traces)
+        n_st += sum(len(t['steps']) for t in traces)
+    return allv, n_tr, n_st
 
 
 def model_check(v, tier):
